@@ -273,6 +273,15 @@ pub fn hash_history(world: u8, cfg: &Cfg, ops: &[Op]) -> u128 {
     h.finish()
 }
 
+/// Converts a value to the (identical) type a generic caller expects; `None` when the types
+/// differ. Lets a world generic over lock and buffer type go through the crate's convenience
+/// constructors (`channel()`, `unbuffered_channel()`, `oneshot_channel()` ...) in the one
+/// instantiation they are defined for.
+pub fn retype<A: 'static, B: 'static>(a: A) -> Option<B> {
+    let b: Box<dyn std::any::Any> = Box::new(a);
+    b.downcast::<B>().ok().map(|b| *b)
+}
+
 // ---------------------------------------------------------------------------------------------
 // Slots
 
